@@ -2,6 +2,7 @@ package rules
 
 import (
 	"fmt"
+	"go/token"
 	"go/types"
 	"strings"
 
@@ -223,6 +224,40 @@ func c16lookup(c *Ctx, a *procAnchors) {
 		R.Check("C16.lookup", R.Key("C16.lookup", shortFn(get), "return-after-read"), c.rel(p.Pos(instrPos(r))), "every answer of GetSignedVAABytes follows a read transaction of this invocation", facts.Before(r, isRead), "a return is reachable without reading the store: the answer comes from memory and can be stale with respect to an acknowledged commit")
 	})
 	R.Floor("C16.lookup.returns", n, 1)
+	// a read that succeeded is answered with the stored bytes: an error is returned only when the
+	// read transaction itself reported one (a later "integrity" or decoding test that turns a
+	// successful read into an error makes an acknowledged VAA unreadable — the encoder accepts
+	// values the decoder rejects, e.g. an empty payload)
+	var view *ssa.Call
+	eachInstr(get, func(i ssa.Instruction) {
+		if cl, ok := i.(*ssa.Call); ok && isRead(cl) {
+			view = cl
+		}
+	})
+	if view != nil && facts.CalleeName(&view.Call) == "(*badger.DB).View" {
+		for _, r := range nonAcceptingReturns(get) {
+			fs := acceptFacts(r)
+			failed := facts.HasAtom(fs, facts.Term(view)+" != nil")
+			for _, f := range fs {
+				// … or it equals a sentinel error (a package-level error variable is never nil)
+				x, op, y, ok := cmpOf(f)
+				if !ok || op != token.EQL {
+					continue
+				}
+				for _, pr := range [][2]ssa.Value{{x, y}, {y, x}} {
+					if pr[0] != ssa.Value(view) {
+						continue
+					}
+					if ld, isLd := pr[1].(*ssa.UnOp); isLd && ld.Op == token.MUL {
+						if _, isG := ld.X.(*ssa.Global); isG {
+							failed = true
+						}
+					}
+				}
+			}
+			R.Check("C16.lookup", R.Key("C16.lookup", shortFn(get), "error-only-from-store"), c.rel(p.Pos(instrPos(r))), "GetSignedVAABytes reports an error only when the read transaction failed", failed, "an error return is reachable although the read succeeded: "+strings.Join(facts.Atoms(fs), ";"))
+		}
+	}
 	dbF := must(p.FieldOf(pkgDB, "Database", "db"), "Database.db")
 	var other []string
 	dbFields := map[*types.Var]bool{}
